@@ -153,6 +153,28 @@ pub fn sites(tier: Tier) -> Vec<Site> {
                 SLOTS[slot()].store(u64::MAX, AO::Relaxed);
             }));
     }
+    // no memory between calls: every ordered pair of strings of length <= 2 over the alphabet parsed back to back
+    {
+        let mut short: Vec<String> = vec![String::new()];
+        for x in ALPHA { short.push(x.to_string()); }
+        for x in ALPHA { for y in ALPHA { short.push(format!("{x}{y}")); } }
+        for x in ["0.7F", "0.7F1", "0.6U13", "1A", "0.7f", "99999999999999999999999999999999999999999B"] { short.push(x.to_string()); }
+        let short = Arc::new(short);
+        let n = (short.len() * short.len()) as u64;
+        sites.push(Site::new("parse-pairs", n,
+            "every ordered pair of (strings of length <= 2 over the alphabet + six version texts) parsed back to back on one thread: the second result is the one the string has on its own",
+            move |i, acc| {
+                acc.eval();
+                let a = &short[(i as usize) / short.len()];
+                let b = &short[(i as usize) % short.len()];
+                let f = |s: &str| format!("{:?}", guard(|| GameVersion::from_str(s).map(|v| (v.to_string(), v)).map_err(|e| e.to_string())));
+                let alone = f(b);
+                let _ = f(a);
+                let after = f(b);
+                if alone == after { acc.class("pair-agrees"); acc.nontrivial(); }
+                else { acc.violate(i, "C16|history-dependent".into(), format!("{b:?} parses to {after} right after {a:?}, to {alone} otherwise"), json!({"site": "parse-pairs", "index": i})); }
+            }));
+    }
     // every number a version can carry: all non-negative finite f32 (thorough: all 2^31 bit patterns;
     // quick: every 2048th): print, parse, same bits
     {
@@ -261,7 +283,8 @@ pub fn sites(tier: Tier) -> Vec<Site> {
             }
             revs.sort(); revs.dedup();
             let f = 0.7f32;
-            let nums = [format!("{}", f), format!("{}", f32::from_bits(f.to_bits() + 1)), format!("{}", f32::from_bits(f.to_bits() - 1))];
+            // (and a number that overflows to infinity: forty nines)
+            let nums = [format!("{}", f), format!("{}", f32::from_bits(f.to_bits() + 1)), format!("{}", f32::from_bits(f.to_bits() - 1)), "9".repeat(40), format!("{}", f32::MAX), "0".to_string()];
             for m in &nums {
                 for l in ['F', 'G'] {
                     for r in &revs {
